@@ -1689,6 +1689,43 @@ func scTargeted(r *rand.Rand, w []scItem) []scArrangement {
 			break
 		}
 	}
+	// 0b. a union whose first member comes from an earlier load and whose second member is defined in
+	//     the union's own document
+	for ui, u := range w {
+		if u.K != kUnion || u.Ext || len(u.Members) < 2 {
+			continue
+		}
+		b := u.Members[1]
+		ok := true
+		bi := -1
+		for k := range w {
+			if k != ui && (scRefers(w[k], u.N) || scRefers(w[k], b)) {
+				ok = false
+			}
+			if w[k].Ext && (w[k].N == u.N || w[k].N == b) {
+				ok = false
+			}
+			if w[k].K == kObject && !w[k].Ext && w[k].N == b {
+				bi = k
+				if len(w[k].Ifaces) > 0 {
+					ok = true && ok
+				}
+			}
+		}
+		if !ok || bi < 0 || b == 10 || b == 11 || b == 12 {
+			continue
+		}
+		var first, second []scItem
+		for k := range w {
+			if k == ui || k == bi {
+				second = append(second, w[k])
+			} else {
+				first = append(first, w[k])
+			}
+		}
+		out = append(out, scArrangement{[][]scItem{first, second}, "union-member-of-an-earlier-load-before-one-of-its-own-document"})
+		break
+	}
 	// 1. a later load extends an interface with a field its implementers lack: refused in every
 	//    arrangement, also when the implementers came in an earlier load
 	for _, it := range w {
